@@ -335,3 +335,10 @@ V("c12-byte0-wrong", "C12", "trie/constants.py", "BYTE_0 = bytes([0])", "BYTE_0 
 V("c01-default-prune", "C01", HX, "    def __init__(self, db, root_hash=BLANK_NODE_HASH, prune=False, ref_count=None):", "    def __init__(self, db, root_hash=BLANK_NODE_HASH, prune=True, ref_count=None):", rule="DEFAULTS")
 V("c01-lru-cached-get-node", "C01", HX, "    def get_node(self, node_hash):\n        if node_hash == BLANK_NODE:", "    @functools.lru_cache(1024)\n    def get_node(self, node_hash):\n        if node_hash == BLANK_NODE:", rule="RSRC")
 V("c14-calc-root-start", "C14", SM, "    node_hash = keccak(value)\n    for sibling_node in reversed(branch):", "    node_hash = keccak(value or key)\n    for sibling_node in reversed(branch):", rule="SIB5")
+
+# --- identity tests / flag forwarding (round-3 seeds C12) -------------------
+V("c12-ident-blank-hash", "C12", BN, "        if node_hash == BLANK_HASH:\n            return None", "        if node_hash is BLANK_HASH:\n            return None", rule="IDENT")
+V("c17-ident-deleted-eq-silent", "C17", DB, "            if val is not DELETED:", "            if not (val is DELETED):", expect="silent", props=["C17", "C04", "C05", "C06"])
+V("c12-fwd-flag-dropped", "C12", BN, "                right_child, keypath[1:], value, if_delete_subtrie\n", "                right_child, keypath[1:], value\n", rule="FWD")
+V("c12-fwd-flag-keyword-silent", "C12", BN, "                right_child, keypath[1:], value, if_delete_subtrie\n", "                right_child, keypath[1:], value, if_delete_subtrie=if_delete_subtrie\n", expect="silent")
+V("c14-fwd-from-db-default", "C14", SM, "smt = cls(key_size=key_size, default=default)", "smt = cls(key_size=key_size)", rule="FWD")
